@@ -187,7 +187,14 @@ def dirs (c : Cfg) (s : St) (a : DArg) : St × Out :=
       | some p => (s, .listing [p])
       | none => (s, .err .tooFew)
 
+/-- `BaseShell._fix_cwd` (run after every command), for a process directory that still exists:
+`if realpath(cwd) != realpath($PWD): $OLDPWD = $PWD; $PWD = cwd` -/
+def fixCwd (c : Cfg) (s : St) : St :=
+  if real c s.cwd != real c s.pwd then { s with pwd := s.cwd, oldpwd := some s.pwd } else s
+
 inductive Op where
+  | fixCwd                        -- the shell's post-command resynchronisation
+  | extChdir (p : Path)           -- something changes the process directory behind the shell's back
   | cd (a : CdArg) (follow : Bool)
   | pushd (a : PArg) (doCd : Bool)
   | popd (a : PArg) (doCd : Bool)
@@ -201,6 +208,8 @@ def setKind (fs : List (Path × Kind)) (p : Path) (k : Kind) : List (Path × Kin
   (p, k) :: fs.filter (fun q => q.1 != p)
 
 def step (c : Cfg) (s : St) : Op → Cfg × St × Out
+  | .fixCwd => (c, fixCwd c s, .ok)
+  | .extChdir p => (c, (if chdirOk c s p then { s with cwd := real c p } else s), .ok)
   | .cd a f => let (s', o) := cd c s a f; (c, s', o)
   | .pushd a d => let (s', o) := pushd c s a d; (c, s', o)
   | .popd a d => let (s', o) := popd c s a d; (c, s', o)
